@@ -1024,6 +1024,13 @@ fn run_session(sink: &mut Sink, dict: &JapaneseDictionary, init_mode: u8, steps:
     let mut other: Option<MorphemeList<&JapaneseDictionary>> = None;
     let mut collected_nonempty = 0usize;
     let (sj, dj) = conf_json(st, ds);
+    // the session as the hand-over model sees it (Model/TokResult.v): per round what a FRESH tokenizer reports for the text,
+    // (outcome, how the result was taken), what the session delivered
+    let mut hand_refs: Vec<String> = vec![];
+    let mut hand_rounds: Vec<String> = vec![];
+    let mut hand_obs: Vec<String> = vec![];
+    let mut hand_ok = true;
+    let spans = |ms: &[MorphOut]| clist(ms.iter().map(|m| format!("({}, {})", cnu(m.b), cnu(m.e))));
     for k in 0..steps.len() {
         let step = &steps[k];
         let text = step.text.expand();
@@ -1109,13 +1116,57 @@ fn run_session(sink: &mut Sink, dict: &JapaneseDictionary, init_mode: u8, steps:
                 }
                 sink.tag("rejected_by_tokenizer");
                 sink.case_rust_only(d, false);
+                hand_refs.push(format!("({}, [])", cnu(k)));
+                hand_rounds.push("(2%N, 1%N)".to_string());
+                hand_obs.push("None".to_string());
             }
-            Ok(Some(_)) if step.how == 1 => {
+            Ok(Some((cur, _))) if step.how == 1 => {
                 // analysed and left alone: nothing is reported, nothing to check (the next collected step is the test)
                 sink.case_rust_only(d, false);
+                hand_refs.push(format!("({}, [])", cnu(k)));
+                hand_rounds.push(format!("({}, 1%N)", cn(if cur.is_empty() { 1u32 } else { 0 })));
+                hand_obs.push("None".to_string());
             }
             Ok(Some((cur, m2o))) => {
                 let (morphs, accessor_panic) = read_morphs(other.as_ref().unwrap_or(&list));
+                // what a fresh tokenizer in the same mode reports for this text
+                if text.len() > 3000 || accessor_panic.is_some() {
+                    hand_ok = false;
+                } else {
+                    let fresh = catch(|| {
+                        // same configuration history (set_mode / set_subset calls since the tokenizer was created), no analyses
+                        let from = (0..k).rev().find(|j| steps[*j].how == 3);
+                        let mut t2 = StatefulTokenizer::new(dict, mode_of(from.map_or(init_mode, |j| steps[j].mode)));
+                        for sj in &steps[from.map_or(0, |j| j + 1)..=k] {
+                            match &sj.subset {
+                                None => {
+                                    t2.set_mode(mode_of(sj.mode));
+                                }
+                                Some((b, true)) => {
+                                    t2.set_subset(b.map(InfoSubset::from_bits_truncate).unwrap_or_else(InfoSubset::all));
+                                    t2.set_mode(mode_of(sj.mode));
+                                }
+                                Some((b, false)) => {
+                                    t2.set_mode(mode_of(sj.mode));
+                                    t2.set_subset(b.map(InfoSubset::from_bits_truncate).unwrap_or_else(InfoSubset::all));
+                                }
+                            }
+                        }
+                        t2.reset().push_str(&text);
+                        t2.do_tokenize().ok()?;
+                        let l = t2.into_morpheme_list().ok()?;
+                        let (ms, p) = read_morphs(&l);
+                        if p.is_some() { None } else { Some(ms) }
+                    });
+                    match fresh {
+                        Ok(Some(ms)) => {
+                            hand_refs.push(format!("({}, {})", cnu(k), spans(&ms)));
+                            hand_rounds.push(format!("({}, {})", cn(if cur.is_empty() { 1u32 } else { 0 }), cn(step.how as u32)));
+                            hand_obs.push(format!("(Some {})", spans(&morphs)));
+                        }
+                        _ => hand_ok = false,
+                    }
+                }
                 if cur.is_empty() {
                     sink.tag(&format!("session_empty_after_{}_nonempty", usize::min(collected_nonempty, 3)));
                 } else {
@@ -1125,6 +1176,13 @@ fn run_session(sink: &mut Sink, dict: &JapaneseDictionary, init_mode: u8, steps:
                 record(sink, &text, &a, d, verbose);
             }
         }
+    }
+    if hand_ok && !steps.is_empty() {
+        let d = json!({"kind": "c01-session", "init_mode": MODE_NAMES[init_mode as usize],
+                       "steps": steps.iter().map(step_json).collect::<Vec<_>>(), "stack": sj, "dict": dj});
+        let term = format!("check_result_session {} {} {}", clist(hand_refs), clist(hand_rounds), clist(hand_obs));
+        sink.tag("result_hand_over_model_case");
+        sink.case(term, d, steps.iter().any(|s| s.how != 0) && steps.len() > 1);
     }
 }
 
@@ -1598,7 +1656,7 @@ pub fn pipeline(which: Prop, sink: &mut Sink, args: &Args, rng: &mut Rng) {
 }
 
 pub fn run(args: &Args) {
-    let mut sink = Sink::new("C01", &args.out, &["Model.Buffer", "Model.Tokenizer"], args.seed, &args.tier);
+    let mut sink = Sink::new("C01", &args.out, &["Model.Buffer", "Model.Tokenizer", "Model.TokResult"], args.seed, &args.tier);
     sink.rule(sink_rule());
     if let Some(p) = &args.replay {
         if is_py_case(p) {
